@@ -42,11 +42,20 @@ def expr(e, branch=False):
 
 
 def hoistable(e):
-    """index expression written without grouping, e.g. 2+2(r3) (exercises the parser's hoisting)"""
-    if e["t"] == "bin" and e["r"]["t"] in ("num", "sym") and e["l"]["t"] in ("num", "sym"):
-        return expr(e["l"]) + e["op"] + expr(e["r"])
+    """index expression written without grouping, e.g. 2+2(r3), -c(r3), -c+2(r3) (exercises the parser's hoisting;
+    a prefix operator is legal at the head of the expression and binds tighter than the infix operator)"""
+    def atom(x):
+        if x["t"] in ("num", "sym"):
+            return expr(x)
+        if x["t"] == "neg" and x["e"]["t"] in ("num", "sym"):
+            return "-" + expr(x["e"])
+        return None
+    if atom(e) is not None:
+        return atom(e)
+    if e["t"] == "bin" and e["r"]["t"] in ("num", "sym") and atom(e["l"]) is not None:
+        return atom(e["l"]) + e["op"] + expr(e["r"])
     s = expr(e)
-    return "<" + s + (" >" if s.endswith(">") else ">") if e["t"] == "bin" else s
+    return "<" + s + (" >" if s.endswith(">") else ">") if e["t"] in ("bin", "neg") else s
 
 
 def stmt(s, inc_names, indent=""):
@@ -89,7 +98,7 @@ def stmt(s, inc_names, indent=""):
     if k == "const":
         return [indent + f"{s['n']} {'==' if s['x'] else '='} {expr(s['e'])}"]
     if k == "extern":
-        return [indent + "\t.extern " + ", ".join(sorted(s["ns"]))]
+        return [indent + "\t.extern " + ", ".join(s["ns"])]
     if k == "externall":
         return [indent + "\t.extern all"]
     if k == "link":
@@ -122,11 +131,32 @@ def walk(stmts, inc):
             yield from walk(inc[s["f"] - 1]["body"], inc)
 
 
+INC_SPELLINGS = ["{n}.mac", "./{n}.mac", "sub/../{n}.mac"]
+
+
 def render(files, inc, base=None):
-    """-> (sources [(name, text)], fs dict or None).  base: harness link base (a leading `.link`)."""
+    """-> (sources [(name, text)], fs dict or None).  base: harness link base (a `.link` the harness adds).
+    Rendering choices that do not change the meaning are varied deterministically with the program: the harness `.link` stands
+    at the start, or (when the program has no '. =' and sets no base itself) at the very end, or is omitted for the default base
+    0o1000; successive inclusions of one file spell its path differently (x.mac, ./x.mac, sub/../x.mac)."""
     inc_names = [f["name"] for f in inc]
     fs = {}
     used_fs = False
+    h = sum(len(repr(f)) * (i + 3) for i, f in enumerate(files))
+    has_dotset = (any(s["k"] in ("dotset", "link") for f in files for s in walk(f, inc))
+                  or any(s["k"] == "end" for s in files[-1]))        # text behind .end is discarded, a trailing .link too
+    link_at = "start"
+    if base is not None and not has_dotset:
+        link_at = ["start", "end", "start", "end", "omit"][h % 5] if base == 512 else ["start", "end"][h % 2]
+    counter = {}
+
+    class Names(list):
+        def __getitem__(self, i):
+            n = list.__getitem__(self, i)
+            k = counter.get(n, 0)
+            counter[n] = k + 1
+            return INC_SPELLINGS[k % 3].format(n=n)[:-4]
+    inc_names = Names(inc_names)
     for f in files:
         for s in walk(f, inc):
             if s["k"] == "insert":
@@ -135,18 +165,22 @@ def render(files, inc, base=None):
             if s["k"] == "include":
                 used_fs = True
     if used_fs:
+        plain = [f["name"] for f in inc]
         for f in inc:
             lines = []
             for s in f["body"]:
-                lines += stmt(s, inc_names)
+                lines += stmt(s, plain)           # inside included files the plain spelling is used
             fs[f["name"] + ".mac"] = "\n".join(lines) + "\n"
+        fs["sub/.keep"] = ""
     srcs = []
     for i, f in enumerate(files):
         lines = []
-        if i == 0 and base is not None:
+        if i == 0 and base is not None and link_at == "start":
             lines.append("\t.link %o" % base)
         for s in f:
             lines += stmt(s, inc_names)
+        if i == len(files) - 1 and base is not None and link_at == "end":
+            lines.append("\t.link %o" % base)
         srcs.append((f"f{i + 1}.mac", "\n".join(lines) + "\n"))
     return srcs, (fs if used_fs else None)
 
@@ -298,3 +332,33 @@ def replay_all(run, recs, inc, opts, nontrivial, limit_cyc=40):
                           {"problem": {k: v for k, v in p.items() if k not in ("sources", "fs")}, "abstract": rec["files"]},
                           files={**p["sources"], **{("fs/" + k): v for k, v in p["fs"].items()}}, tags=tags_for(rec, p))
     return tasks
+
+
+def explore_given(run, programs, incfiles, bases, harness_link=True, label=None, timeout=1500):
+    """Evaluate harness-generated abstract programs with AsmCore.tla ("given" mode): the specification is the oracle
+    for programs that are too large for TLC to enumerate.  programs = list of programs (each a list of files)."""
+    import json as _json
+    import os as _os
+    import tempfile as _tempfile
+    from .common import tmp_root
+    fd, path = _tempfile.mkstemp(prefix="given-", suffix=".json", dir=tmp_root())
+    try:
+        with _os.fdopen(fd, "w") as f:
+            _json.dump(programs, f)
+        res = require_ok(run_tlc("AsmCore", cfg_text=cfg_text("LayoutAlphabet", incfiles, 0, 0, bases, harness_link),
+                                 env={"PROGRAMS": path}, label=label or f"AsmCore given programs ({len(programs)})", timeout=timeout))
+    finally:
+        _os.unlink(path)
+    run.add_tlc(res)
+    inc, recs = None, []
+    for r in res.exports:
+        if "incfiles" in r:
+            inc = r["incfiles"]
+        else:
+            recs.append(r)
+    if res.violated:
+        bad = [r for r in recs if not all(r["chk"].values())]
+        run.violation(f"model: invariant {res.violated} violated in AsmCore.tla (given programs)", {"failing_clauses": bad[:3], "tail": res.tail[-2000:]})
+    if len(recs) != len({repr(p) for p in programs}):
+        raise MachineryError(f"AsmCore evaluated {len(recs)} of {len(programs)} given programs\n{res.tail[-800:]}")
+    return recs, inc
